@@ -22,13 +22,14 @@ EXTENDS QuantityAlg
 
 \* units of the C07 universe: dimension vector <<length, angle, power>>
 HeapUnits ==
-  [u \in {"m", "c:m", "k:m", "s", "deg", "rad", "d:Bm", "d:BW", "%"} |->
+  [u \in {"m", "c:m", "k:m", "s", "deg", "rad", "d:Bm", "d:BW", "Bm", "%"} |->
      CASE u \in {"m", "c:m", "k:m"} -> [dim |-> <<1, 0, 0, 0>>, fac |-> <<>>]
        [] u = "s"                   -> [dim |-> <<0, 0, 0, 1>>, fac |-> <<>>]
        [] u \in {"deg", "rad"}      -> [dim |-> <<0, 1, 0, 0>>, fac |-> <<>>]
-       [] u \in {"d:Bm", "d:BW"}    -> [dim |-> <<0, 0, 1, 0>>, fac |-> <<>>]
+       [] u \in {"d:Bm", "d:BW", "Bm"} -> [dim |-> <<0, 0, 1, 0>>, fac |-> <<>>]
        [] u = "%"                   -> [dim |-> <<0, 0, 0, 0>>, fac |-> <<>>]]
-LogUnits == {"d:Bm", "d:BW"}
+LogUnits == {"d:Bm", "d:BW", "Bm"}       \* Bm: the level unit of d:Bm without its prefix (another unit factor)
+SameLevelUnit(ux, uy) == ux = uy \/ {ux, uy} = {X1("d:Bm"), X1("Bm")}     \* same symbol, whatever the prefix
 LengthUnits == {"m", "c:m", "k:m"}
 IsLog(ex) == ExUnits(ex) \cap LogUnits # {}
 URad == X1("rad")
@@ -51,7 +52,8 @@ Targets(u) ==
   ELSE IF u = UCmPerM THEN {UNone}
   ELSE IF u = X1("deg") THEN {URad}
   ELSE IF u = URad THEN {X1("deg")}
-  ELSE IF u = X1("d:Bm") THEN {X1("d:BW")}
+  ELSE IF u = X1("d:Bm") THEN {X1("d:BW"), X1("Bm")}
+  ELSE IF u = X1("Bm") THEN {X1("d:Bm")}
   ELSE IF u = X1("d:BW") THEN {X1("d:Bm")}
   ELSE IF ExUnits(u) \cap LengthUnits # {} /\ Cardinality(ExUnits(u) \cap LengthUnits) = 1
        THEN {Subst(u, w) : w \in LengthUnits} \ {u}
@@ -100,7 +102,7 @@ PowN(op) == CASE op = "pow2" -> RInt(2) [] op = "np.sqrt" -> R(1, 2) [] op = "np
 
 \* is the call refused (an exception) - by the ideal's reading of the documentation
 \* (X, Y: the operand objects; the machine asks the same question about ITS view of the operands)
-AddUnitsRefused(ux, uy) == Dim(ux) # Dim(uy) \/ ((IsLog(ux) \/ IsLog(uy)) /\ ux # uy)
+AddUnitsRefused(ux, uy) == Dim(ux) # Dim(uy) \/ ((IsLog(ux) \/ IsLog(uy)) /\ ~SameLevelUnit(ux, uy))
 \* Decimal and array magnitudes cannot be combined (Decimal(ndarray) / Decimal*ndarray raise TypeError)
 KindClash(X, Y) == (X.dec /\ Y.arr) \/ (X.arr /\ Y.dec)
 RefusesOn(A, X, Y) ==
